@@ -46,11 +46,25 @@ func main() {
 	refactor := flag.String("refactor", "", "apply a behaviour-preserving transformation (rename-locals|shift-lines|swap-operands|invert-if|hoist-init|wrap-else) to the scratch copy given by -repo and exit")
 	mutGen := flag.Bool("mutgen", false, "print the systematic mutation sites of the functions the rules analyse (JSON) and exit")
 	forceWhole := flag.Bool("whole", false, "type-check the whole program from source (no export data is requested from the go command, so nothing is compiled into the build cache); used for every run on a scratch copy")
+	dumpF := flag.Bool("dump-funcs", false, "print the list of SDK functions of the tree (the known-function list of the normaliser) and exit")
+	noNorm := flag.Bool("no-normalise", false, "analyse the program as written (do not expand unknown helpers)")
 	mutOnly := flag.Bool("mutants", false, "only run the mutant catalogue of the property and report checker sensitivity")
 	flag.Parse()
 	seed, _ := strconv.ParseInt(envOr("VERIF_SEED", "0"), 10, 64)
 
+	disableNormalise = *noNorm
+	if *dumpF {
+		disableNormalise = true
+		p, err := Load(*repo, false)
+		if err != nil {
+			fmt.Println(err)
+			os.Exit(1)
+		}
+		dumpFuncs(p)
+		os.Exit(0)
+	}
 	if *refactor != "" {
+		disableNormalise = true
 		if strings.HasPrefix(*repo, "/repo") {
 			fmt.Println("refusing to transform /repo; give a scratch copy")
 			os.Exit(2)
@@ -157,10 +171,16 @@ func main() {
 						isK = true
 					}
 				}
-				if o.Verdict != vOK && !isK {
+				if o.Verdict == vViolation && !isK {
 					n++
 					fmt.Printf("MUTANT-REPORT %s %s %s [%s] %s %s\n", id, o.Rule, o.Key, o.Verdict, o.Pos, o.Detail)
+				} else if o.Verdict != vOK && !isK {
+					// not a verdict about the property: the rule could not be applied to this tree
+					fmt.Printf("MUTANT-UNDECIDED %s %s %s [%s] %s %s\n", id, o.Rule, o.Key, o.Verdict, o.Pos, o.Detail)
 				}
+			}
+			if len(p.normNotes) > 0 {
+				fmt.Printf("NORMALISE %s: %d steps (%s ...)\n", id, len(p.normNotes), p.normNotes[0])
 			}
 			if n > 0 {
 				code = 1
